@@ -679,8 +679,12 @@ func (g G) exprFor(c m.ConsM, env exprEnv, depth int) string {
 		}
 		return literalText(g, g.Val(c.Val.Ty.Cty()), true)
 	case "keyword":
-		if g.Chance(75) {
+		if g.Chance(70) {
 			return c.Kw
+		}
+		if g.Chance(40) {
+			// the keyword as the root of a longer traversal: not the keyword
+			return c.Kw + Pick(g, []string{".name", "[0]", ".a.b", "[\"k\"]"})
 		}
 		return Pick(g, []string{"kw", "kwx", "k"})
 	case "typedecl":
